@@ -67,7 +67,7 @@ def judge(st, probe, layers, viol, obs, keys, base_case):
         for (u, v) in st.edges:
             m = cnt.get((u, v), 0)
             pert = ((hash((u, v, i)) % 3) - 1) * 1e-7
-            sol[(str(u), str(v), i)] = float(m) + pert
+            sol[(u, v, i)] = float(m) + pert      # (keyed like the models' own edge_vars_sol: by the nodes themselves)
     probe.edge_vars_sol = sol
     mark = M.log_mark()
     r = M.safe_call(probe.get_solution_walks)
@@ -101,8 +101,17 @@ def judge(st, probe, layers, viol, obs, keys, base_case):
         viol.append({"sig": "C14/error-logged", "msg": f"library logged {logs[:2]}", "replay": rep})
 
 
+class _Tag(str):
+    """a str subclass whose str() is not the node itself (like a member of `class N(str, enum.Enum)`): equal to and hashing like the plain string"""
+    def __str__(self):
+        return "Tag." + str.__str__(self)
+
+
 def run_case(case):
     G = gen.build(case["spec"])
+    if case.get("kind") == "random" and int(hashlib.sha1(repr(case.get("rs")).encode()).hexdigest(), 16) % 8 == 0:
+        # the same graph with nodes of a str subclass (they pass the 'nodes must be strings' check and compare equal to the plain names)
+        G = nx.relabel_nodes(G, {v: _Tag(v) for v in G.nodes})
     st = fp.stDiGraph(G)
     probe = Probe(st, k=1, max_edge_repetition=10, optimization_options={"optimize_with_safe_sequences": False})
     viol = []; obs = collections.Counter(); keys = set()
